@@ -13,6 +13,8 @@ ANCHORS = [
     "api.py:write_extended_prefix_map", "api.py:_record_to_dict", "api.py:write_jsonld_context", "api.py:_get_jsonld_context",
     "api.py:_get_expanded_term", "api.py:write_shacl", "api.py:_get_shacl_line", "api.py:write_tsv", "api.py:Converter.from_shacl",
 ]
+# public functions the driver does not call itself (the library reaches them internally today): missing => reported, not inconclusive
+SOFT_ANCHORS = ['api.py:Converter.from_shacl']
 DECIDING = ["writer:write_extended_prefix_map", "writer:write_jsonld_context", "writer:write_shacl", "writer:write_tsv"]
 RULE = (
     "case = strict converter of 1-4 records (records with and without synonyms side by side, patterns in half of them; "
